@@ -12,6 +12,7 @@ structure Dig where
 
 structure Key where
   cfg : String
+  checkers : List String      -- [] unless the regenerated facts say the checkers reach the rule / config hash
   shape : String
   variant : Nat
   cid : String
@@ -173,11 +174,11 @@ def step (st : St) (line : String) : St × String :=
       let fl : Flags := { verify := kw = "build" }
       let check : Key → Option String → String → Bool :=
         if kw = "build" then
-          concreteCheck genU genC env (isFileOf st.digs) cfgA checkers (fun k => k.declared) (outsOf st.digs)
+          concreteCheck genU genC env (isFileOf st.digs) (fun _ => cfgA) (fun _ => checkers) (fun k => k.declared) (outsOf st.digs)
         else fun k memo c =>
           (calcAndCheck genU genC env (isFileOf st.digs) cfgA checkers fl k.declared (outsOf st.digs c)
             (memo.bind fun m => targetOutputHash env (isFileOf st.digs) cfgA (outsOf st.digs m))).isSome
-      let key : Key := ⟨st.cfg, d.shape, d.variant, d.cid, d.declared⟩
+      let key : Key := ⟨st.cfg, if keyCoversCheckers ∧ ¬ d.declared.isEmpty then st.checkers else [], d.shape, d.variant, d.cid, d.declared⟩
       if d.shape = "G" then
         let cur := st.fg.lookup name
         let (out', res) := buildFilegroup genS check key d.cid (cur.map (·.1))
